@@ -132,6 +132,8 @@ func runThoroughExtras(prop, repo, verif string, r *Report) {
 			}
 			missed++
 			fmt.Printf("WARNING property=%s mutation %s (%s) is NOT detected by the rules (expected %s)\n", prop, m.Name, m.Source, m.Expect)
+		case "skipped", "nocompile":
+			fmt.Printf("WARNING property=%s: mutation patch %s (%s) no longer applies/compiles on the current tree (%s): rebase it\n", prop, m.Name, m.Source, m.Status)
 		}
 	}
 	// ---- false-alarm self-test: behaviour-preserving refactorings must leave the check silent
@@ -170,6 +172,8 @@ func runThoroughExtras(prop, repo, verif string, r *Report) {
 		case "FALSE-ALARM":
 			alarms++
 			fmt.Printf("WARNING property=%s raises an alarm on the behaviour-preserving refactoring %s: %s\n", prop, m.Name, m.Matched)
+		case "skipped", "nocompile":
+			fmt.Printf("WARNING property=%s: refactoring patch %s no longer applies/compiles on the current tree (%s): rebase it\n", prop, m.Name, m.Status)
 		}
 	}
 	r.Extra["refactorings"] = rres
